@@ -977,7 +977,7 @@ class Steward(object):
         """
         Restart incomer timer
         """
-        incomer.timer.restart()
+        self.incomer.timer.restart()
 
     def respond(self):
         """
